@@ -40,7 +40,7 @@ def mutate(r, src, dst, diagram, nops):
             did, elems = class_diagram_elements(con, diagram)
             classes = [e for e in elems if e[2] == "Class"]
             packages = [e for e in elems if e[2] == "Package"]
-            op = r.choice(["rename-class", "rename-class", "remove-class", "rename-package"])
+            op = r.choice(["rename-class", "rename-class", "remove-class", "rename-package", "unpackage-class", "remove-package"])
             if op == "rename-class" and classes:
                 e = r.choice(classes)
                 prefix = re.match(r"[A-Za-z]?", e[3]).group(0) if e[3][:1] in "CIEs" else "C"
@@ -59,6 +59,30 @@ def mutate(r, src, dst, diagram, nops):
                         cur.execute("SELECT DEFINITION FROM MODEL_ELEMENT WHERE ID=?", (rel[1],))
                         if e[1].encode() in cur.fetchone()[0]:
                             con.execute("DELETE FROM DIAGRAM_ELEMENT WHERE ID=?", (rel[0],))
+                applied.append([op, e[3]])
+            elif op == "unpackage-class" and classes and packages:
+                # move a class out of its package: drop it from the package's Child list and clear its owner
+                e = r.choice(classes)
+                cur = con.cursor()
+                cur.execute("SELECT PARENT_ID FROM MODEL_ELEMENT WHERE ID=?", (e[1],))
+                parent = cur.fetchone()[0]
+                if parent and any(p_[1] == parent for p_ in packages):
+                    cur.execute("SELECT DEFINITION FROM MODEL_ELEMENT WHERE ID=?", (parent,))
+                    text = cur.fetchone()[0].decode("utf-8")
+                    m = re.search(r"Child=\((.*?)\);", text, re.S)
+                    if m:
+                        entries = re.findall(r"<[^>]*>", m.group(1))
+                        kept = [x for x in entries if not x.rstrip(">").endswith(":" + e[1]) and x != "<%s>" % e[1]]
+                        if len(kept) == len(entries) - 1:
+                            new_list = "Child=(\r\n" + ", \r\n".join("\t\t" + x for x in kept) + "\r\n\t);" if kept else "Child=NULL;"
+                            text = text[:m.start()] + new_list + text[m.end():]
+                            cur.execute("UPDATE MODEL_ELEMENT SET DEFINITION=? WHERE ID=?", (text.encode("utf-8"), parent))
+                            cur.execute("UPDATE MODEL_ELEMENT SET PARENT_ID=NULL WHERE ID=?", (e[1],))
+                            applied.append([op, e[3]])
+            elif op == "remove-package" and len(packages) > 1:
+                # the package shape leaves the diagram: its classes are drawn outside any package
+                e = r.choice(packages)
+                con.execute("DELETE FROM DIAGRAM_ELEMENT WHERE ID=?", (e[0],))
                 applied.append([op, e[3]])
             elif op == "rename-package" and packages:
                 e = r.choice(packages)
